@@ -1080,7 +1080,8 @@ func main() {
 		names = append(names, leanStr(t.label))
 	}
 	o.WriteString("/-- every write into a part of a view that the data-changing functions (and the methods of View / Header / RecordSet /\n    Record they call) perform: (function, file:line, target, level written) -/\ndef dmlWrites : List Write :=\n  [")
-	for i, wr := range dmlWrites(all["lib/query"]) {
+	writes, closure := dmlWrites(all["lib/query"])
+	for i, wr := range writes {
 		if i > 0 {
 			o.WriteString(",\n   ")
 		}
@@ -1092,6 +1093,31 @@ func main() {
 		o.WriteString(fmt.Sprintf("⟨%s, %s, %s, %s, %s⟩", leanStr(wr.Fn), leanStr(file), leanStr(site), leanStr(wr.Target), leanStr(wr.Level)))
 	}
 	o.WriteString("]\n\n")
+	// FileInfo: struct copies (`x := *fi`) anywhere in lib/query — level "dml" when the function is a data-changing function or a
+	// view method they call — and the assignments that install a FileInfo on a view inside those functions
+	emit := func(name, doc string, ws []Write) {
+		o.WriteString("/-- " + doc + " -/\ndef " + name + " : List Write :=\n  [")
+		for i, wr := range ws {
+			if i > 0 {
+				o.WriteString(",\n   ")
+			}
+			file := strings.SplitN(wr.Site, ":", 2)[0]
+			site := wr.Site
+			if refMode {
+				site = file
+			}
+			o.WriteString(fmt.Sprintf("⟨%s, %s, %s, %s, %s⟩", leanStr(wr.Fn), leanStr(file), leanStr(site), leanStr(wr.Target), leanStr(wr.Level)))
+		}
+		o.WriteString("]\n\n")
+	}
+	emit("fileInfoCopies", "every struct copy of a FileInfo (`x := *fi`) in lib/query: (function, site, the expression copied, `dml` = inside a data-changing function or a view method it calls / `other`)", fileInfoCopySites(all["lib/query"], closure))
+	var installs []Write
+	for _, wr := range writes {
+		if strings.HasSuffix(wr.Target, ".FileInfo") && wr.Level == "viewStruct" {
+			installs = append(installs, wr)
+		}
+	}
+	emit("fileInfoInstalls", "every assignment of the data-changing functions (and the view methods they call) that gives a view ANOTHER FileInfo", installs)
 	o.WriteString("/-- the functions that were described -/\ndef copyFunctions : List String :=\n  [" + strings.Join(names, ", ") + "]\n\n")
 	o.WriteString("end Csvq." + ns + "\n")
 	fmt.Print(o.String())
@@ -1133,5 +1159,44 @@ func fileInfoCopies(p *Pkg) []Fact {
 			})
 		}
 	}
+	return out
+}
+
+// fileInfoCopySites: the struct copies of a FileInfo with their enclosing function
+func fileInfoCopySites(p *Pkg, closure map[string]bool) []Write {
+	var out []Write
+	for _, f := range p.Files {
+		for _, d := range f.Decls {
+			fd, ok := d.(*ast.FuncDecl)
+			if !ok || fd.Body == nil {
+				continue
+			}
+			fn, _ := p.Info.Defs[fd.Name].(*types.Func)
+			if fn == nil {
+				continue
+			}
+			label := funcLabel(fn)
+			ast.Inspect(fd.Body, func(n ast.Node) bool {
+				se, ok := n.(*ast.StarExpr)
+				if !ok {
+					return true
+				}
+				tv, ok := p.Info.Types[se]
+				if !ok || !tv.IsValue() {
+					return true
+				}
+				if nt, ok := tv.Type.(*types.Named); !ok || nt.Obj().Name() != "FileInfo" {
+					return true
+				}
+				lv := "other"
+				if closure[label] {
+					lv = "dml"
+				}
+				out = append(out, Write{label, at(se.Pos()), "*" + text(se.X), lv})
+				return true
+			})
+		}
+	}
+	sort.Slice(out, func(i, j int) bool { return out[i].Fn+out[i].Site < out[j].Fn+out[j].Site })
 	return out
 }
